@@ -16,9 +16,13 @@ import (
 // from the seeded scheduler on the AST-instrumented source, with the race detector on).
 
 type MapOp struct {
-	Op  string `json:"o"` // store load los lad del clear range len
+	Op  string `json:"o"` // store load los lad del clear range len | rangemut (sequential only)
 	Key string `json:"k,omitempty"`
 	Val int    `json:"v,omitempty"`
+	// rangemut: a Range whose callback performs Sub[i] at its i-th visit (re-entrant use of the same
+	// map) and returns false at visit number Stop (0 = never)
+	Sub  []MapOp `json:"sub,omitempty"`
+	Stop int     `json:"stop,omitempty"`
 }
 
 type C12Scenario struct {
@@ -31,6 +35,53 @@ type C12Scenario struct {
 }
 
 var c12Keys = []string{"a", "b", "c"}
+
+// c12BigKeys: the key set of the sequential family with re-entrant iteration (maps large enough
+// for size-dependent paths).
+var c12BigKeys = []string{"k0", "k1", "k2", "k3", "k4", "k5", "k6", "k7", "k8", "k9", "k10", "k11", "k12", "k13"}
+
+func c12BigOp(r *Rng, next *int, nested bool) MapOp {
+	k := c12BigKeys[r.Intn(len(c12BigKeys))]
+	switch r.Intn(16) {
+	case 0, 1, 2, 3:
+		*next++
+		return MapOp{Op: "store", Key: k, Val: *next}
+	case 4:
+		return MapOp{Op: "load", Key: k}
+	case 5:
+		*next++
+		return MapOp{Op: "los", Key: k, Val: *next}
+	case 6:
+		return MapOp{Op: "lad", Key: k}
+	case 7, 8, 9:
+		return MapOp{Op: "del", Key: k}
+	case 10:
+		if r.Chance(1, 6) {
+			return MapOp{Op: "clear"}
+		}
+		return MapOp{Op: "load", Key: k}
+	case 11:
+		return MapOp{Op: "range"}
+	case 12:
+		return MapOp{Op: "len"}
+	default:
+		if nested {
+			return MapOp{Op: "load", Key: k}
+		}
+		op := MapOp{Op: "rangemut"}
+		for i := r.Intn(5); i > 0; i-- {
+			if r.Chance(1, 3) {
+				op.Sub = append(op.Sub, MapOp{Op: "load", Key: "zz_absent"})
+			} else {
+				op.Sub = append(op.Sub, c12BigOp(r, next, true))
+			}
+		}
+		if r.Chance(1, 4) {
+			op.Stop = r.Range(1, 4)
+		}
+		return op
+	}
+}
 
 func c12RandOp(r *Rng, nkeys int, next *int) MapOp {
 	k := c12Keys[r.Intn(nkeys)]
@@ -102,7 +153,31 @@ func c12Gen(seed uint64, tier string) any {
 	next := 0
 	sc := &C12Scenario{}
 	// the first seeds of every batch carry the exhaustive family, cut into slices
-	switch r.Intn(10) {
+	switch r.Intn(12) {
+	case 10, 11:
+		// larger maps, long histories, iteration whose callback uses the map
+		sc.Mode = "seq"
+		var ops []MapOp
+		fill := r.Range(0, len(c12BigKeys))
+		for i := 0; i < fill; i++ {
+			next++
+			ops = append(ops, MapOp{Op: "store", Key: c12BigKeys[i], Val: next})
+		}
+		if r.Bool() {
+			ops = append(ops, MapOp{Op: "range"})
+			if r.Bool() {
+				// a promoted map most of whose entries are dead
+				for i := 0; i < fill; i++ {
+					if r.Chance(3, 4) {
+						ops = append(ops, MapOp{Op: Pick(r, []string{"del", "del", "lad"}), Key: c12BigKeys[i]})
+					}
+				}
+			}
+		}
+		for i := r.Range(5, 60); i > 0; i-- {
+			ops = append(ops, c12BigOp(r, &next, false))
+		}
+		sc.Tasks = [][]MapOp{ops}
 	case 0, 1, 2, 3:
 		sc.Mode = "seq"
 		n := r.Range(3, 40)
@@ -292,6 +367,85 @@ func (s *seqModel) apply(op MapOp) opResult {
 	return opResult{}
 }
 
+// applyRangeMut runs a Range whose callback uses the same map. What an ordinary map promises for
+// that: every visited pair is a mapping the key had at some point during the iteration; a key that is live
+// during the whole iteration and not written by the callback is visited exactly once (unless the
+// callback stopped the iteration); every operation inside the callback, and the contents afterwards,
+// are those of the map with the callback's writes applied.
+func applyRangeMut(m *ds.ValueMap, model *seqModel, op MapOp) string {
+	atStart := map[string]int{}
+	for k, v := range model.m {
+		atStart[k] = v
+	}
+	touched := map[string]bool{}
+	visits := map[string]int{}
+	// held[k]: the values k has had since the iteration began (an iteration over a map that is being
+	// written may show any of them, never anything else)
+	held := map[string]map[int]bool{}
+	note := func() {
+		for k, v := range model.m {
+			if held[k] == nil {
+				held[k] = map[int]bool{}
+			}
+			held[k][v] = true
+		}
+	}
+	note()
+	why := ""
+	n := 0
+	stopped := false
+	m.Range(func(k string, v *ds.VMValue) bool {
+		n++
+		visits[k]++
+		if !held[k][valID(v)] {
+			if why == "" {
+				why = fmt.Sprintf("visit %d yields %s=%d, a mapping the key never had during this iteration (now: %v)", n, k, valID(v), model.m)
+			}
+		}
+		if n-1 < len(op.Sub) {
+			sub := op.Sub[n-1]
+			switch sub.Op {
+			case "store", "los", "lad", "del":
+				touched[sub.Key] = true
+			case "clear":
+				for k2 := range model.m {
+					touched[k2] = true
+				}
+				for k2 := range atStart {
+					touched[k2] = true
+				}
+			}
+			a := applyReal(m, sub)
+			b := model.apply(sub)
+			note()
+			if !sameResult(sub, a, b) && why == "" {
+				why = fmt.Sprintf("inside the callback (visit %d) %s returned %+v, a map returns %+v", n, fmtOps([]MapOp{sub}), a, b)
+			}
+		}
+		if op.Stop > 0 && n >= op.Stop {
+			stopped = true
+			return false
+		}
+		return true
+	})
+	if why != "" {
+		return why
+	}
+	for k, c := range visits {
+		if c > 1 && !touched[k] {
+			return fmt.Sprintf("key %s visited %d times", k, c)
+		}
+	}
+	if !stopped {
+		for k := range atStart {
+			if !touched[k] && visits[k] != 1 {
+				return fmt.Sprintf("key %s was live during the whole iteration and not written by the callback, visited %d times", k, visits[k])
+			}
+		}
+	}
+	return ""
+}
+
 func sameResult(op MapOp, a, b opResult) bool {
 	switch op.Op {
 	case "range":
@@ -319,6 +473,8 @@ func fmtOps(ops []MapOp) string {
 			parts = append(parts, fmt.Sprintf("%s(%s,%d)", o.Op, o.Key, o.Val))
 		case "clear", "range", "len":
 			parts = append(parts, o.Op)
+		case "rangemut":
+			parts = append(parts, fmt.Sprintf("range{callback: %s; stop at visit %d}", fmtOps(o.Sub), o.Stop))
 		default:
 			parts = append(parts, fmt.Sprintf("%s(%s)", o.Op, o.Key))
 		}
@@ -401,6 +557,15 @@ func runSeq1(ops []MapOp, res *RunResult, observers bool) (sig, msg string) {
 	m := &ds.ValueMap{}
 	model := &seqModel{m: map[string]int{}}
 	for i, op := range ops {
+		if op.Op == "rangemut" {
+			if why := applyRangeMut(m, model, op); why != "" {
+				return "seq-mismatch:range-reentrant", fmt.Sprintf("after [%s], %s: %s", fmtOps(ops[:i]), fmtOps(ops[i:i+1]), why)
+			}
+			if res != nil {
+				res.Fault("reentrant_range")
+			}
+			continue
+		}
 		a := applyReal(m, op)
 		b := model.apply(op)
 		if !sameResult(op, a, b) {
@@ -889,7 +1054,7 @@ func init() {
 		ID: "C12", Level: "exploration", Race: true,
 		QuickRuns: 100000, ThoroughRuns: 3000000,
 		Gen: c12Gen, GenIdx: genIdx, Exec: c12Exec, Shrink: c12Shrink,
-		Rule: "three families. (1) exhaustive: every sequence of Store/Load/LoadOrStore/LoadAndDelete/Delete over keys a,b plus Clear/Range/Length up to a length bound (quick 4, thorough 5), each compared operation by operation with a Go map, including the script-visible observers (dict truthiness, len(), == in both directions against a fresh dict with the same / one more pair). (2) random sequential sequences of 3-40 operations over 1-3 keys, same oracles. (3) concurrent: 2-4 goroutines x 1-5 operations over <=3 keys with unique values, after a random sequential setup, on the AST-instrumented valuemap.go (a preemption point before every statement, mutex waits as yield loops) under the seeded scheduler with the race detector on; the recorded invoke/return history (stamped with a global event counter) is checked with porcupine against a sequential map; Range is entered as one independent read per key over the call's interval (the sync.Map contract) plus no-duplicate; Length overlapping writers is bounded from the history; a quiescent final reader (Load of every key, Range, Length) goes through the model atomically. distinct = distinct (operation lists, context-switch sequence); non-trivial = at least one pair of operations of different goroutines overlapped (concurrent) / at least 3 operations (sequential)",
+		Rule: "the sequential family also runs long histories on 14 keys with iteration whose callback uses the same map (store / delete / LoadOrStore / LoadAndDelete / Clear / Length / nested Range at given visits, early stop): every visited pair is a mapping the key had during the iteration, keys untouched by the callback are visited exactly once, every operation inside the callback and everything afterwards equals the model. three families. (1) exhaustive: every sequence of Store/Load/LoadOrStore/LoadAndDelete/Delete over keys a,b plus Clear/Range/Length up to a length bound (quick 4, thorough 5), each compared operation by operation with a Go map, including the script-visible observers (dict truthiness, len(), == in both directions against a fresh dict with the same / one more pair). (2) random sequential sequences of 3-40 operations over 1-3 keys, same oracles. (3) concurrent: 2-4 goroutines x 1-5 operations over <=3 keys with unique values, after a random sequential setup, on the AST-instrumented valuemap.go (a preemption point before every statement, mutex waits as yield loops) under the seeded scheduler with the race detector on; the recorded invoke/return history (stamped with a global event counter) is checked with porcupine against a sequential map; Range is entered as one independent read per key over the call's interval (the sync.Map contract) plus no-duplicate; Length overlapping writers is bounded from the history; a quiescent final reader (Load of every key, Range, Length) goes through the model atomically. distinct = distinct (operation lists, context-switch sequence); non-trivial = at least one pair of operations of different goroutines overlapped (concurrent) / at least 3 operations (sequential)",
 		Real: []string{"valuemap.go (AST-instrumented scratch copy, logic unchanged), dict observers in types.go, under -race"},
 		Stub: []string{"goroutine scheduling (decided by the simulator at every statement boundary of valuemap.go)"},
 		Assumptions: []string{"Go atomics are sequentially consistent, so interleavings of statements are the behaviours the memory model allows for this file", "porcupine Unknown (10 s timeout) is counted inconclusive, never reported", "Length during concurrent writers is only bounded (sound, loose); exact once quiescent"},
